@@ -60,3 +60,20 @@ Theorem C02_confirmation_not_carried_over : forall c n size time meta hash e e',
   cget n (c_mem (cadd c n size time meta hash)) = Some e' -> ce_done e' = false.
 Proof. exact add_other_version_not_done. Qed.
 Print Assumptions C02_confirmation_not_carried_over.
+
+(* ---- finish(): what one poll answer does to the cache entry and the source file ---- *)
+Theorem C02_finish_confirms_only_the_version_asked_about :
+  forall code cached polled was_done can_delete disk,
+  fo_done (finish_step code cached polled was_done can_delete disk) = true ->
+  was_done = true \/
+  ((code = POLL_PASSED \/ code = POLL_WAITING) /\ (polled = [] \/ cached = polled)).
+Proof. exact finish_confirms_only_the_version_asked_about. Qed.
+Print Assumptions C02_finish_confirms_only_the_version_asked_about.
+
+Theorem C02_finish_removes_only_the_confirmed_version :
+  forall code cached polled was_done can_delete disk,
+  fo_removed (finish_step code cached polled was_done can_delete disk) = true ->
+  (code = POLL_PASSED \/ code = POLL_WAITING) /\ (polled = [] \/ cached = polled) /\
+  can_delete = true /\ disk = 0.
+Proof. exact finish_removes_only_the_confirmed_version. Qed.
+Print Assumptions C02_finish_removes_only_the_confirmed_version.
